@@ -8,7 +8,6 @@ import time
 from . import common as C
 
 TYPES10 = [("u8", 0), ("u8", 2), ("u8", 4), ("u16", 0), ("u16", 4), ("u32", 0), ("u32", 8), ("u32", 16), ("u64", 0), ("u64", 8)]
-TYPES6 = [("u8", 0), ("u8", 4), ("u16", 0), ("u32", 8), ("u32", 16), ("u64", 8)]
 # -O0 without debug info: these translation units instantiate ~30 lists each and compile 4x faster this way
 LAYOUT_FLAGS = ["-std=c++17", "-O0", "-DNDEBUG", "-fsanitize=address", "-fsanitize-recover=address", "-fno-omit-frame-pointer"]
 COUNT_TYPES = {"c8": "D<P, u8>", "csz": "D<P, sz, 8>", "c16": "D<P, u8, 16>", "c32": "D<P, u32>"}
@@ -22,13 +21,18 @@ def dtype(kind, t):
     return "D<%s, %s%s>" % (kind, t[0], (", %d" % t[1]) if t[1] else "")
 
 
+TYPES8 = [("u8", 0), ("u8", 4), ("u16", 0), ("u32", 0), ("u32", 8), ("u32", 16), ("u64", 0), ("u64", 8)]
+
+
 def family(tier):
-    """returns list of (name, [descriptor strings])"""
+    """returns list of (name, [descriptor strings]).
+    quick:    every list of <= 2 logical parameters over {P,F,V} x TYPES10 (930) plus the three-parameter family A
+              "aligned plain parameter, lower-aligned parameter of any kind, aligned plain/fixed parameter" (480)
+    thorough: the two-parameter lists with three count types, every three-parameter list over {P,F,V} x TYPES8
+              (13 824) and the four-parameter family B (aligned head, plain/fixed filler, any middle, aligned tail)"""
     lists = []
-    if tier == "quick":
-        types, maxp, counts = TYPES10, 2, ["c8"]
-    else:
-        types, maxp, counts = TYPES10, 2, ["c8", "csz", "c16"]
+    seen = set()
+
     def add(params, ct):
         ds, names = [], []
         for kind, t in params:
@@ -39,16 +43,29 @@ def family(tier):
         nm = ",".join(names)
         if any(k == "V" for k, _ in params):
             nm += "(%s)" % ct
-        lists.append((nm, ds))
-    opts = [(k, t) for k in "PFV" for t in types]
-    for n in range(1, maxp + 1):
+        if nm not in seen:
+            seen.add(nm)
+            lists.append((nm, ds))
+
+    opts = [(k, t) for k in "PFV" for t in TYPES10]
+    counts = ["c8"] if tier == "quick" else ["c8", "csz", "c16"]
+    for n in (1, 2):
         for params in itertools.product(opts, repeat=n):
             has_v = any(k == "V" for k, _ in params)
             for ct in (counts if has_v else ["c8"]):
                 add(params, ct)
-    if tier != "quick":
-        opts6 = [(k, t) for k in "PFV" for t in TYPES6]
-        for params in itertools.product(opts6, repeat=3):
+    head = [("P", t) for t in [("u32", 8), ("u8", 8), ("u64", 8), ("u32", 0), ("u8", 0)]]
+    middle = [(k, t) for k in "PFV" for t in [("u8", 0), ("u16", 0), ("u32", 0), ("u64", 0)]]
+    tail = [(k, t) for k in "PF" for t in [("u8", 8), ("u32", 8), ("u64", 8), ("u8", 0)]]
+    if tier == "quick":
+        for params in itertools.product(head, middle, tail):
+            add(params, "c8")
+    else:
+        opts8 = [(k, t) for k in "PFV" for t in TYPES8]
+        for params in itertools.product(opts8, repeat=3):
+            add(params, "c8")
+        filler = [(k, t) for k in "PF" for t in [("u32", 0), ("u8", 0)]]
+        for params in itertools.product(head[:3], filler, middle, tail[:6]):
             add(params, "c8")
     return lists
 
@@ -83,7 +100,7 @@ def classify(nm):
 def run_layout(prop, tier, t0):
     """returns (coverage, violations, internal)"""
     lists = family(tier)
-    ntu = 32 if tier == "quick" else 256
+    ntu = 48 if tier == "quick" else 512
     tag = hashlib.sha256(json.dumps(lists).encode()).hexdigest()[:10]
     files = gen_tus(lists, ntu, tag)
     jobs = []
